@@ -30,6 +30,9 @@ Suffix(v, name) ==
       [] OTHER -> <<>>
 FieldValue(v, name, str) == Prefix(v, name) \o str \o Suffix(v, name)
 ListLike == {"prov_list_response", "pub_list_reply", "pub_delta", "pub_error_reply"}
+\* the shape of an issuance request picks the form of its resource limit: one family, two, all three, one family limited to
+\* the EMPTY set (RFC 6492: "no resources of that kind", distinct from an absent limit), all three limited to the empty set
+LimitLike == {"prov_issue"}
 MutKinds == {"truncate", "del-byte", "flip-lt", "flip-gt", "flip-quote", "flip-amp", "nul-byte", "high-byte",
              "attr-empty", "attr-short", "attr-nonascii", "attr-dup", "attr-unknown", "attr-drop",
              "entity-unknown", "entity-numeric", "entity-unterminated", "text-amp", "text-lt", "text-junk", "text-empty",
@@ -39,7 +42,7 @@ VARIABLES op, variant, focus, str, shape, opt, mut, pos
 vars == <<op, variant, focus, str, shape, opt, mut, pos>>
 Init ==
     \/ /\ op = "msg" /\ variant \in Variants /\ opt \in BOOLEAN
-       /\ shape \in (IF variant \in ListLike THEN 0..3 ELSE {1})
+       /\ shape \in (IF variant \in ListLike THEN 0..3 ELSE IF variant \in LimitLike THEN 0..4 ELSE {1})
        /\ focus \in Focusable(variant) \cup {"none"}
        /\ str = <<>> /\ mut = "none" /\ pos = 0
     \/ /\ op = "mutate" /\ variant \in Variants /\ opt = TRUE /\ shape = 2
